@@ -115,6 +115,8 @@ def tokStr : Tok → String
   | .dot => "."
   | .isize s => "z" ++ s.letter
   | .str s => "q" ++ hexStr s
+  | .secname s => "s" ++ hexStr s
+  | .blob s => "b" ++ s
   | .other n => "x" ++ n
 
 /-! ### programs in wire form -/
@@ -390,6 +392,14 @@ def step : List String → String
        | .ok ts => match refParseB genLevels ts with
          | .ok b => bexprWire b
          | .error _ => "E")
+    | none => "bad-op"
+  | "K" :: h :: srcs =>
+    -- token level: the lexer model on a text, with the given source names
+    match unhex h with
+    | some text =>
+      (match lex srcs text with
+       | .error _ => "E"
+       | .ok ts => "T " ++ " ".intercalate (ts.map tokStr))
     | none => "bad-op"
   | "A" :: rest =>
     let vs := rest.takeWhile (· != ";")
